@@ -33,7 +33,14 @@ Inductive case :=
    is replaced by one of that class, or the real first protocol message cannot be broadcast
    (a comm.CommunicationError), or the protocol library itself reports a tss.Error; answered: the peers
    answer the initiate messages of a retry; impl / real as in Session *)
-| Failed (k : kind) (f : failure) (answered : bool) (sh : share) (impl : list ev) (real : nat).
+| Failed (k : kind) (f : failure) (answered : bool) (sh : share) (impl : list ev) (real : nat)
+(* ONE session with a batch of real processes of the kinds ks, each made by its real constructor on a
+   key-share store of its own, driven through the real Coordinator.Execute to the outcome o (the same
+   start message reaches every process); impl = one ledger per process (its store's L/U/Get/Store and the
+   extent of its Run); real: the same batch replayed in a child process, every process on a REAL store
+   (sync.Mutex) of its own: 0 not replayed, 1 completed and every store's lock could be taken afterwards,
+   2 the child died with "unlock of unlocked mutex", 3 a store's lock was still held *)
+| Batch (ks : list kind) (o : outcome) (impl : list (list ev)) (real : nat).
 
 Definition ev_eqb (a b : ev) : bool :=
   match a, b with
@@ -54,6 +61,13 @@ Fixpoint threads_agree (i : nat) (ss : list (kind * outcome)) (tr : list (nat * 
   | s :: r => evs_eqb (session_events New (fst s) (snd s)) (proj i tr) && threads_agree (S i) r tr
   end.
 
+Fixpoint evss_eqb (a b : list (list ev)) : bool :=
+  match a, b with
+  | [], [] => true
+  | x :: a', y :: b' => evs_eqb x y && evss_eqb a' b'
+  | _, _ => false
+  end.
+
 Definition agree (c : case) : bool :=
   match c with
   | Session k o sh impl _ => feasible_in sh k o && evs_eqb (session_events New k o) impl
@@ -67,6 +81,8 @@ Definition agree (c : case) : bool :=
       stress_ok workers pairs dones counter free
   | Failed k f a sh impl _ =>
       feasible_in sh k (failed_outcome k f a) && evs_eqb (session_events New k (failed_outcome k f a)) impl
+  | Batch ks o impl _ =>
+      Nat.leb 2 (length ks) && batch_feasible ks o && evss_eqb (batch_ledgers PerIteration ks o) impl
   end.
 
 Definition judge (c : case) : bool :=
@@ -76,6 +92,7 @@ Definition judge (c : case) : bool :=
   | Contention ss impl free => contention_ok ss impl && Nat.leb free 1
   | StoreStress _ workers pairs dones counter free => stress_ok workers pairs dones counter free
   | Failed k f a sh impl real => session_ok k impl && Nat.leb real 1
+  | Batch ks o impl real => batch_ledgers_ok ks impl && Nat.leb real 1
   end.
 
 Definition kind_ix (k : kind) : N :=
@@ -98,6 +115,7 @@ Definition tag (c : case) : N :=
   | Sequence _ _ _ => 1000%N
   | Contention _ _ _ => 2000%N
   | StoreStress frost _ _ _ _ _ => if frost then 3001%N else 3000%N
+  | Batch ks o _ _ => (5000 + 16 * N.of_nat (length ks) + outcome_ix o)%N
   end.
 
 Definition check_all := check_cases agree judge tag.
